@@ -72,13 +72,22 @@ SetConv(v) == /\ "SetConv" \in Ops /\ v # defs.yv
 SetW(v) == /\ "SetW" \in Ops /\ v # defs.w /\ v > 0       \* the first (or a later) definition of the input w
            /\ defs' = [defs EXCEPT !.w = v, !.ver = Bump("w")] /\ memo' = {}
            /\ Log1([op |-> "SetW", v |-> v])
-Eval(e, t) == /\ "Eval" \in Ops
+\* routes of an evaluation: "api" = Model.evaluate_equation(name, t); "elem" = calling the element object, element(t)
+Eval(e, t, route) == /\ "Eval" \in Ops /\ (route = "elem" => "EvalElem" \in Ops /\ e # "w")
               /\ memo' = Filled(e, t) /\ UNCHANGED defs
-              /\ Log1([op |-> "Eval", e |-> e, t |-> t, stale |-> \E cell \in memo : cell.e = e /\ cell.t = t /\ ~Fresh(cell)])
+              /\ Log1([op |-> "Eval", e |-> e, t |-> t, route |-> route, stale |-> \E cell \in memo : cell.e = e /\ cell.t = t /\ ~Fresh(cell)])
+\* Element.plot(return_df=True): evaluates the element over the whole run (the memo is filled through the plotting code only)
+Horizon == 0..3
+FilledAll(e) == memo \cup {[e |-> p[1], t |-> p[2], seen |-> Cur(p[1])] : p \in {q \in UNION {Reach(e, t) : t \in Horizon} : ~Has(q[1], q[2])}}
+Plot(e) == /\ "Plot" \in Ops /\ e # "w"
+           /\ memo' = FilledAll(e) /\ UNCHANGED defs
+           /\ Log1([op |-> "Plot", e |-> e])
 ResetCache == /\ "ResetCache" \in Ops /\ memo # {}
               /\ memo' = {} /\ UNCHANGED defs
               /\ Log1([op |-> "ResetCache"])
-RunTwice == /\ "RunTwice" \in Ops          \* bptk.run_scenarios twice: the second run reports what the first did
+\* bptk.run_scenarios several times with different equation lists: the scenario's memo persists between the runs, so
+\* a later run reports what the first one computed - also for a scenario whose constant is a stochastic definition
+RunTwice == /\ "RunTwice" \in Ops
             /\ UNCHANGED <<defs, memo>>
             /\ Log1([op |-> "RunTwice"])
 
@@ -88,7 +97,8 @@ Step1 == \/ \E v \in CVals : SetConst(v)
          \/ \E v \in IVals : SetInit(v)
          \/ \E v \in {1, 2} : SetFlow(v) \/ SetConv(v)
          \/ \E v \in CVals : SetW(v)
-         \/ \E e \in Elems, t \in Times : Eval(e, t)
+         \/ \E e \in Elems, t \in Times, r \in {"api", "elem"} : Eval(e, t, r)
+         \/ \E e \in Elems : Plot(e)
          \/ ResetCache \/ RunTwice
 Next1 == Step1 /\ UNCHANGED <<slot, pc, mine, got, ndraw, sched>>
 vars1 == <<defs, memo, hist>>
